@@ -22,7 +22,7 @@ from ..report import Ctx
 from ..selftest import Mutant
 
 PROP = "C08"
-TECHNIQUE = "static analysis: rejection-fact extraction (conditions and quantifier domains of every raise) + printer/parser token tables + def-use origin of shape positions + role analysis of the stride arithmetic + whole-domain rules (strided comparisons, filtered parser comprehensions, single-arrow split) + element-domain tracing of the rank validator's receiver (whole self.inputs vs a restriction) + no-glue (blank deletion) rule + whole-domain rule for input_keys + None-only exemption from the identifier test + total rename + no early return ahead of rejections + tuple-typed spec fields + shapes looked up by name"
+TECHNIQUE = "static analysis: rejection-fact extraction (conditions and quantifier domains of every raise) + printer/parser token tables + def-use origin of shape positions + role analysis of the stride arithmetic + whole-domain rules (strided comparisons, filtered parser comprehensions, single-arrow split) + element-domain tracing of the rank validator's receiver (whole self.inputs vs a restriction) + no-glue (blank deletion) rule + whole-domain rule for input_keys + None-only exemption from the identifier test + total rename + no early return ahead of rejections + tuple-typed spec fields + shapes looked up by name + simultaneous-renaming rule (no accumulation in a loop over the renames)"
 MOD = "pipefunc.map._mapspec"
 EXPLANATION = (
     "Static analysis of pipefunc/map/_mapspec.py: string constants and the regex AST of the printer and parser are "
